@@ -125,7 +125,10 @@ SHAPES = {"5x4x2": ([5, 4, 2], ["red", "green"]),
           "4x5": ([4, 5], None), "1x1": ([1, 1], None),
           "2x3": ([2, 3], None), "1x7": ([1, 7], None),
           "3x3x3": ([3, 3, 3], ["red", "green", "blue"])}
-SPACINGS = {"iso": 0.1, "aniso": [0.1, 0.2]}
+SPACINGS = {"iso": 0.1, "aniso": [0.1, 0.2],
+            # 3*0.7/0.7 < 3 in floating point: the reference-image crop of
+            # load_average has to round, not truncate
+            "odd": [0.3, 0.7]}
 NAMES = {"img": "img", "none": None, "a b": "a b"}
 KINDS = ["none", "scalar", "dict", "array"]
 
@@ -255,7 +258,9 @@ def cases(tier, seed):
         for n in range(1, nmax + 1):
             refs = ["none", "plain", "meta"]
             for ref in refs:
-                for sp in ("iso", "aniso"):
+                for sp in ("iso", "aniso", "odd"):
+                    if sp == "odd" and ref == "none":
+                        continue
                     if ref != "none" and sp == "aniso" and tier == "quick":
                         continue
                     chans = ["-"] if not rk.startswith("rgb") else (
